@@ -1657,7 +1657,15 @@ def _by_value(a, b):
             return False
     da = str(a.datatype) if a.datatype is not None else XSD + "string"
     db = str(b.datatype) if b.datatype is not None else XSD + "string"
-    return da == db and (a.language or "").lower() == (b.language or "").lower()
+    if not (da == db and (a.language or "").lower() == (b.language or "").lower()):
+        return False
+    if type(a.value) in T._TOTAL_ORDER_CASTERS and type(b.value) is type(a.value):
+        return True                                       # partitioned and ordered by the caster
+    try:                                                  # values without an order (a Duration against anything, F13's route)
+        a.value > b.value                                 # fall back to the lexical forms
+        return True
+    except TypeError:
+        return False
 
 
 def _lt_cycle(lits):
